@@ -9,6 +9,7 @@ import SemaModel.C11.Witness
 import SemaModel.C11.Progress
 import SemaModel.C11.Inv16
 import SemaModel.C11.Inv19
+import SemaModel.C11.Inv20
 import SemaModel.C11.Skeleton
 import SemaModel.Generated.FactsC11
 set_option linter.unusedSimpArgs false
@@ -236,6 +237,64 @@ theorem C11_reader_never_blocks_on_cache {s0 s : St} (hi : Init s0) (hv : s0.v =
   unfold stepCond at hb
   cases hpc : (s.thr t).pc <;> simp [hpc, rwPC, hro, isCommitPC, mgrAcq] at hrw hleg hp hc hb ⊢
   · have := new_free h (t := t) (by simp [hpc, newPre]); simp [this.2] at hb
+
+/-! ## C11_no_scrapped
+
+What the code guarantees, precisely.  `With` reads the `scrapped` flag once (`chkScrapped`), after it
+has acquired its lock, and hands the object to the callback one step later.  (1) At the check the
+flag was clear (`C11_checked_before_handout`).  (2) An object that was scrapped by a transaction
+holding its WRITE lock (a failed writer's callback, a failed Commit, a replacement — ghost `dirty`,
+i.e. the object may carry partial state) is never handed to, nor being used by, a callback of another
+transaction: `C11_no_scrapped`.  (3) The window between check and use exists only for a flag set
+under a READ lock: a reader whose callback fails scraps the shared cache while other readers, which
+passed their check before, still use or are about to use it; that cache was not modified (all of them
+hold read locks), so nothing partial is observed.  The literal sentence "no callback ever receives
+an object whose scrapped flag is set" is therefore FALSE for the code (and stays so: it is a plain
+field written under RLock, see notes — data race, outside the model); (2) is the part that matters. -/
+
+theorem C11_no_scrapped {s0 s : St} (hi : Init s0) (hv : s0.v = fixedV) (hr : Reachable s0 s)
+    (t : Tid) (T' : TxId) (hcb : (s.thr t).pc = .callF ∨ (s.thr t).pc = .inF)
+    (hd : (s.objs (s.thr t).use).dirty = some T') : (s.thr t).tx = T' := by
+  obtain ⟨_, d⟩ := dirty_reachable hi hv hr
+  exact d.d2 t T' (Or.inl (by rcases hcb with h | h <;> simp [h, postCheck])) hd
+
+/-- the flag is clear when it is checked: the step from `chkScrapped` to `callF` -/
+theorem C11_checked_before_handout (s : St) (t : Tid) (c : Choice) (hp : (s.thr t).pc = .chkScrapped)
+    (hn : ((step s t c).thr t).pc = .callF) : (s.objs (s.thr t).use).scrapped = false := by
+  revert hn
+  unfold step
+  simp only [hp, stepAt]
+  cases hs : (s.objs (s.thr t).use).scrapped <;> simp [St.setThr]
+
+/-- whatever is marked `dirty` is scrapped (so every later check sends its reader to a cold copy) -/
+theorem C11_dirty_is_scrapped {s0 s : St} (hi : Init s0) (hv : s0.v = fixedV) (hr : Reachable s0 s)
+    (o : ObjId) (ho : o < s.nObj) (hd : (s.objs o).dirty ≠ none) : (s.objs o).scrapped = true := by
+  obtain ⟨_, d⟩ := dirty_reachable hi hv hr
+  exact d.d1 o ho hd
+
+/-! ## C11_evict_harmless
+
+`Reachable` has a constructor for evictions: any set of map entries may vanish at ANY moment
+(between any two steps of any goroutine, even while the manager mutex is held — more than
+`Release` or pruning can do).  Hence every theorem of this file already quantifies over all
+evictions.  Stated once more explicitly: after any eviction the state is reachable, satisfies all
+invariants, no lock / transaction / goroutine state has changed, and the evicted names are absent, so
+the next `With` on such a name takes the new-cache branch and rebuilds the cache. -/
+
+theorem C11_evict_harmless {s0 s : St} (hi : Init s0) (hv : s0.v = fixedV) (hr : Reachable s0 s) (ns : List Name) :
+    Reachable s0 (evict s ns) ∧ AllInv (evict s ns) ∧ InvDirty (evict s ns) ∧
+    (evict s ns).objs = s.objs ∧ (evict s ns).txs = s.txs ∧ (evict s ns).thr = s.thr ∧ (evict s ns).mgr = s.mgr ∧
+    (∀ n, n ∈ ns → (evict s ns).map n = none) ∧ (∀ n, n ∉ ns → (evict s ns).map n = s.map n) := by
+  obtain ⟨a, d⟩ := dirty_reachable hi hv hr
+  refine ⟨Reachable.evict ns hr, AllInv_evict ns a, InvDirty_evict ns d, rfl, rfl, rfl, rfl, ?_, ?_⟩
+  · intro n hn; simp [evict, hn]
+  · intro n hn; simp [evict, hn]
+
+/-- after an eviction the next access to that name creates a new cache: `lookup` goes to `nCreate` -/
+theorem C11_evicted_is_rebuilt (s : St) (t : Tid) (c : Choice) (hp : (s.thr t).pc = .lookup)
+    (hm : s.map (s.thr t).acc.name = none) : ((step s t c).thr t).pc = .nCreate := by
+  unfold step
+  simp [hp, stepAt, hm, St.setThr]
 
 /-! ## C11_failed_dropped
 
